@@ -449,7 +449,7 @@ func runSoloCapped(st *trie.SlimTrie, u *Unit) (string, int64) {
 		if rec != nil {
 			rec[site]++
 		}
-		if n > soloCap && !capped {
+		if n > soloCap && !capped && locksHeld() == 0 {
 			capped = true
 			panic(abortUnit{"solo-cap"})
 		}
